@@ -865,6 +865,13 @@ def literal_zoo():
         ('regex-quote', ('re', '"[^"]*"', False), '"a'),
         ('regex-unicode', ('re', '[é€]+', False), 'é€e'),
         ('regex-backtick', ('re', '`+', False), '`a'),
+        # patterns that match the empty string somewhere but not everywhere
+        ('regex-eoi', ('re', '$', False), 'ab\n'),
+        ('regex-abs-end', ('re', '\\Z', False), 'ab\n'),
+        ('regex-neg-lookahead', ('re', '(?!a)', False), 'ab'),
+        ('regex-lookahead', ('re', '(?=a)', False), 'ab'),
+        ('regex-star-eoi', ('re', 'a*$', False), 'ab'),
+        ('regex-opt-lookahead', ('re', 'a?(?=b)', False), 'ab'),
     ]
 
 
